@@ -532,6 +532,41 @@ def _bf_store_name(P, f, i):
     return None
 
 
+def clause9_misc(ctx, P, cg):
+    """(a) an empty frame is a legal frame: send_frame() refuses nothing on account of its payload pointer or a zero length;
+    (b) header names are compared without regard to case - every comparison of the field name in the header-field callback
+    goes through the case-insensitive comparison"""
+    sf = P.fn("websocket.c:send_frame")
+    bad = None
+    for v in Q.path_views(ctx, P, sf):
+        rc = v.ret_const()
+        if rc is None or rc >= 0:
+            continue
+        for (a, p) in v.atoms:
+            if a[0] == "cmp" and a[2] == ("param", 1, sf.params[1]["name"]) and a[3] == ("null",) and Q._poleq(a, p):
+                bad = v
+            if a[0] == "cmp" and a[2] == ("param", 2, sf.params[2]["name"]) and a[3] == ("const", 0) and Q._poleq(a, p):
+                bad = v
+    ctx.ob("C12.3 R-GATE", sf, "empty-frames-are-sent", bad is None,
+           "send_frame() fails for a NULL payload / zero length: a ping without application data (legal, RFC 6455 5.5.2) cannot be "
+           "answered with its (empty) pong and the connection is closed", witness=bad.witness() if bad else None)
+    hf = P.fn("websocket.c:websocket_upgrade_on_header_field")
+    at = ("param", 1, hf.params[1]["name"])
+    wrong = []
+    ncmp = 0
+    for c in hf.all_insts():
+        if c.op == "call" and c.callee and any(Q.mentions(P.term(hf, a), lambda x: x == at) for a in c.a):
+            nm = P.srcname_of(c.callee)
+            if nm.startswith("llvm.dbg"):
+                continue
+            ncmp += 1
+            if nm != "jet_strncasecmp":
+                wrong.append(c)
+    ctx.ob("C12.5 R-SIB", hf, "header-names-compared-case-insensitively", not wrong and ncmp >= 4,
+           "the header field name is examined with %s() at %s: HTTP header names are case-insensitive (RFC 7230 3.2), a client that "
+           "spells Sec-Websocket-Key is refused" % (P.srcname_of(wrong[0].callee) if wrong else "?", wrong[0].loc if wrong else "?"))
+
+
 def clause8_frame_flags(ctx, P, cg):
     """the flags of a frame header (fin, rsv, opcode, mask) are rewritten for EVERY frame: a flag that is only ever set
     keeps the value of an earlier frame (e.g. 'masked'), and the checks on it stop working from the second frame on"""
@@ -579,3 +614,4 @@ def run(ctx):
         clause7_scanners(ctx, P)
         clause8_status_codes(ctx, P)
         clause8_frame_flags(ctx, P, cg)
+        clause9_misc(ctx, P, cg)
